@@ -146,4 +146,25 @@ theorem wuf_condition_calls : callsOf "worker.WaitUntilFinished$1" = ["Load", "L
     worker never blocks in Response.Send -/
 theorem response_capacity_calls : callsOf "NewResponse" = ["make"] ∧ guardsOf "NewResponse" = [] := by decide
 
+-- ---------------------------------------------------------------- C19: what the race check has to know about
+/-- every kind of synchronisation operation in the code is one the happens-before mapping of the
+    driver (`RaceMap.events`) gives a meaning to; a new primitive (sync.Once, sync.Map, atomic.Value …)
+    fails this theorem instead of being silently treated as "orders everything" -/
+def knownSyncKinds : List String := [
+  "atomic:Add", "atomic:CompareAndSwap", "atomic:Load", "atomic:Store", "atomic:Swap",
+  "chan:close", "chan:make", "chan:range", "chan:recv", "chan:select", "chan:send", "chan:trysend",
+  "cond:Broadcast", "cond:Signal", "cond:Wait", "ctx:cancel", "go:go",
+  "mutex:Lock", "mutex:RLock", "mutex:RUnlock", "mutex:Unlock",
+  "pool:Get", "pool:Put", "time:NewTicker", "time:Stop", "wg:Add", "wg:Done", "wg:Wait"]
+theorem sync_kinds_known : Generated.syncKinds.all (fun k => knownSyncKinds.contains k) = true := by decide
+
+/-- the instrumentation found plain accesses to wrap (a translator that silently stops wrapping would
+    make the race check vacuous) -/
+theorem mem_sites_present : 300 ≤ Generated.memSites := by decide
+
+/-- the result slot of a Response is written and read under its mutex -/
+theorem response_lock_skeleton :
+    skeletonOf "Response.Send" = ["mutex:c.mx:Lock", "mutex:c.mx:Unlock", "chan:c.ch:send"] ∧
+    skeletonOf "Response.Response" = ["chan:c.ch:recv", "mutex:c.mx:Lock", "mutex:c.mx:Unlock"] := by decide
+
 end VarmqVerif.Tie
